@@ -1399,7 +1399,8 @@ class C17(Check):
         logs_by_inv = {}
         for n, e in enumerate(ix.trace):
             if e["k"] == "log-call" and e["i"] > 1 and not oracles._under_branch(e["pos"]):
-                nxt = next((x for x in ix.trace[n + 1:n + 400] if x["t"] == e["t"] and x["i"] == e["i"]), {})
+                nxt = next((x for x in ix.trace[n + 1:n + 400] if x["t"] == e["t"] and x["i"] == e["i"]
+                            and x["k"] not in ("stall", "sdk-call", "sdk-ret")), {})
                 logs_by_inv.setdefault(e["i"], set()).add(nxt.get("k") == "log")
         return any(len(v) == 2 for v in logs_by_inv.values())
 
